@@ -1,14 +1,25 @@
-(* statements pinned a second time: a weakened theorem in Props/C04.v fails here *)
-From WR Require Import Lib.Bits Mpq.Crypt Proofs.Crypt_proofs Props.C04.
+From Coq Require Import NArith List Bool Arith.
+Import ListNotations.
+From WR Require Import Lib.Bits Mpq.Crypt Proofs.Crypt_proofs Mpq.Jenkins Proofs.Jenkins_proofs Props.C04.
 Open Scope N_scope.
+
+
 Definition pin_1 : forall key ws, decrypt_block (encrypt_block ws key) key = ws := C04_decrypt_encrypt_block.
 Definition pin_2 : forall key ws, encrypt_block (decrypt_block ws key) key = ws := C04_encrypt_decrypt_block.
 Definition pin_3 : forall key bs, wf_bytes bs -> decrypt_file_data (encrypt_data bs key) key = bs := C04_bytes_decrypt_encrypt.
 Definition pin_4 : forall ht s, wf_bytes s ->
-    hash_string (map swap_case s) ht = hash_string s ht /\ hash_string (map swap_slash s) ht = hash_string s ht := C04_hash_case_slash_invariant.
+    hash_string (map swap_case s) ht = hash_string s ht /\
+    hash_string (map swap_slash s) ht = hash_string s ht := C04_hash_case_slash_invariant.
 Definition pin_5 : forall ht s1 s2, map norm s1 = map norm s2 -> hash_string s1 ht = hash_string s2 ht := C04_hash_fold_invariant.
 Definition pin_6 : crypt_table = ref_table := C04_crypt_table_reference.
 Definition pin_7 : forall name ht, ht <= 1024 -> wf_bytes name -> hash_string name ht = ref_hash name ht := C04_hash_string_eq_ref.
 Definition pin_8 : forall ht c, ht <= 1024 -> c < 256 -> w32 (ht + norm c) < ct_len := C04_hash_index_in_range.
-Definition pin_9 : forall ws key, key <> 0 -> key < M32 -> encrypt_block ws key = ref_enc ws key 4008636142 := C04_encrypt_block_eq_ref.
-Definition pin_10 : forall ws key, key <> 0 -> key < M32 -> decrypt_block ws key = ref_dec ws key 4008636142 := C04_decrypt_block_eq_ref.
+Definition pin_9 : hash_string str_listfile 0 = 0x5F3DE859 /\
+  hash_string str_hash_table 768 = 0xC3AF3770 /\
+  hash_string str_block_table 768 = 0xEC83B3A3 /\
+  nth_N crypt_table 0 0 = 0x55C636E2 /\ nth_N crypt_table 1 0 = 0x02BE0170 := C04_published_vectors.
+Definition pin_10 : forall ws key, key <> 0 -> key < M32 -> encrypt_block ws key = ref_enc ws key 4008636142 := C04_encrypt_block_eq_ref.
+Definition pin_11 : forall ws key, key <> 0 -> key < M32 -> decrypt_block ws key = ref_dec ws key 4008636142 := C04_decrypt_block_eq_ref.
+Definition pin_12 : forall key pc pb, hashlittle2 key pc pb = ref_hashlittle2 key pc pb := C04_hashlittle2_eq_ref.
+Definition pin_13 : forall name hash_bits, wf_bytes name -> het_hash name hash_bits = het_hash_ref name hash_bits := C04_het_hash_eq_ref.
+Definition pin_14 : forall name, wf_bytes name -> jenkins_one_at_a_time name = ref_oaat name := C04_oaat_eq_ref.
